@@ -119,6 +119,11 @@ func (ye *YouTubeExtractor) getDataFromSrcURL(srcURL string) (string, map[string
 		srcURL = "http:" + srcURL
 	}
 
+	// ParseRequestURI doesn't expect a fragment, it is not part of the path
+	if i := strings.IndexByte(srcURL, '#'); i >= 0 {
+		srcURL = srcURL[:i]
+	}
+
 	parsedURL, err := nurl.ParseRequestURI(srcURL)
 	if err != nil {
 		return "", nil
